@@ -23,7 +23,7 @@ func init() {
 		Rule: "1-6 caller tasks x 1-4 requests (Get/Delete/Do with caller-chosen tokens, incl. tokens equal to an outstanding one) on one real connection (UDP, DTLS shim, TCP, TLS shim; block-wise on/off; limiter off/2); a scripted peer answers in any order - piggybacked, empty-ACK-then-separate (CON/NON), delayed across ticks, duplicated, plus forged answers for unknown and already-completed tokens; " +
 			"non-trivial = at least two requests were outstanding at the same time; distinct = distinct event-log hash",
 		Scenarios: []Scenario{{Name: "S-REQ/scripted-peer", Weight: 1, Run: c03Run}},
-		Quick:     60000,
+		Quick:     200000,
 		Thorough:  3000000,
 		Assume: []string{
 			"on datagram transports the scripted peer emits a separate response only after its empty ACK was delivered (the lost/overtaken-ACK case is C06's known finding and is kept out of this check)",
